@@ -161,7 +161,16 @@ impl<'a, 'tcx> Mx<'a, 'tcx> {
     fn rvalue(&self, r: &Rvalue<'tcx>) -> J {
         match r {
             Rvalue::Use(o, _) => J::Obj(vec![("k", J::s("use")), ("op", self.operand(o))]),
-            Rvalue::Repeat(o, _) => J::Obj(vec![("k", J::s("repeat")), ("op", self.operand(o))]),
+            Rvalue::Repeat(o, n) => {
+                let mut v = vec![("k", J::s("repeat")), ("op", self.operand(o)), ("n_s", J::s(format!("{}", n)))];
+                let env = ty::TypingEnv::post_analysis(self.tcx, self.owner);
+                if let Some(k) = n.try_to_target_usize(self.tcx) {
+                    v.push(("n", J::Int(k as i128)));
+                } else {
+                    let _ = env;
+                }
+                J::Obj(v)
+            }
             Rvalue::Ref(_, bk, p) => {
                 let b = match bk {
                     BorrowKind::Shared => "shared",
